@@ -114,8 +114,11 @@ def build(w, s):
             if n["vcurve"]:
                 vc = n["name"] + "_vol"
                 wn.add_curve(vc, "VOLUME", [tuple(p) for p in n["vcurve"]])
-            wn.add_tank(n["name"], elevation=n["elev"], init_level=n["init"], min_level=n["minl"],
+            # "late_elev": the tank is created at another elevation, which is then corrected through the attribute
+            wn.add_tank(n["name"], elevation=n["elev"] - (7.5 if n.get("late_elev") else 0.0), init_level=n["init"], min_level=n["minl"],
                         max_level=n["maxl"], diameter=n["diam"], min_vol=0.0, vol_curve=vc)
+            if n.get("late_elev"):
+                wn.get_node(n["name"]).elevation = n["elev"]
         else:
             d = n["dem"]
             wn.add_junction(n["name"], base_demand=d[0]["base"] if d else 0.0,
